@@ -38,7 +38,7 @@ def program_sets(tier):
                          "async-def", "self-read", "import-as-cur", "try-except-cur"})
     ctl = (BIND_CTL | extra) if tier == "thorough" else scoping
     return [("gen", dict()), ("ctl", dict(size=C.SIZE[tier] + 1, only=ctl, key=("c10ctl", tier))),
-            ("sig", dict(size=1 if tier == "quick" else 2, sigs=("rich", "kwonly", "doc", "closure-default"), key=("c10sig", tier))),
+            ("sig", dict(size=1 if tier == "quick" else 2, sigs=("rich", "kwonly", "doc", "closure-default", "closure-annot"), key=("c10sig", tier))),
             C.odd_set(tier)] + C.core3_sets(tier)
 
 
@@ -233,6 +233,19 @@ class WithCallAndInit:
     def __init__(self, x=0):
         y = x
 
+def make_ann():
+    Alias = int
+    def annotated(x: Alias) -> Alias:
+        y = x
+        return y
+    return annotated
+
+annotated = make_ann()
+
+def generic[T](x: T) -> T:
+    y: T = x
+    return y
+
 def make_late(activate):
     # the closure variable `late` has no value yet when the probe is activated
     def inner(x):
@@ -250,6 +263,8 @@ TARGETS = [
     ("plain > x", "ok"),
     ("inner > late", "ok"),            # a closure variable that is still unbound when the probe is activated
     ("inner > y", "ok"),
+    ("annotated > y", "ok"),           # annotations refer to a local of the enclosing function
+    ("generic > y", "ok"),             # annotations refer to a type parameter (def generic[T])
     ("len > x", "type-error"),
     ("NoInit > x", "type-error"),
     ("n > x", "type-error"),
